@@ -10,7 +10,7 @@ NOTES = ("Technique family: static analysis only. Every check re-extracts MIR fa
 STATUS = {
     "C03": dict(
         claimed=True,
-        technique="MIR census + provenance (single writer, record field origins, argument origins at every trade-writer call context of the side-specialised whole-operation views, write census of Order.vol) + interprocedural must-flow of every fill volume into the cumulative counter (directly or through returned accumulators) + reset-body rule + matching-loop rules (limits admit the trade price, current best price) + per-case modify rules (volume changes only as requested)",
+        technique="MIR census + provenance (single writer, record field origins, argument origins at every trade-writer call context of the side-specialised whole-operation views, write census of Order.vol) + interprocedural must-flow of every fill volume into the cumulative counter (directly or through returned accumulators) + reset-body rule + matching-loop rules (limits admit the trade price, current best price) + per-case modify rules (volume changes only as requested) + write-back rule (every path that modifies the working copy of an order stores it back)",
         text=("Decides on every path of the code: the trade log has one append-only writer; each record's fields originate from "
               "clock/passive side+price/min volume/aggressor+passive ids; both volumes decrease by the logged amount; the counter is "
               "updated after every fill and reset only by reset_trade_vol; Order.vol has no writer outside the fill and modify_order. "
@@ -34,7 +34,7 @@ STATUS = {
         note=TRUST + "Assumes valid histories (resting volume < 2^32, LEVELS*tick < 2^32, valid ids)."),
     "C01": dict(
         claimed=True,
-        technique="rules on side-specialised whole-operation views of the API entries (private helpers spliced in, the order's side fixed, constant and joined-value branches normalised): provenance of priority keys (K1/K3), sibling mirror of side wrappers (K2), loop-condition/exit-edge/termination/progress analysis of every matching-loop context and must-pass-through of the opposite-side loop (K4), fill-rule origins (K5), typestate exit states (K6), finite case analysis of the modify dispatch (K7)",
+        technique="rules on side-specialised whole-operation views of the API entries (private helpers spliced in, the order's side fixed, constant and joined-value branches normalised): provenance of priority keys (K1/K3), sibling mirror of side wrappers (K2), loop-condition/exit-edge/termination/progress analysis of every matching-loop context and must-pass-through of the opposite-side loop (K4), fill-rule origins (K5), typestate exit states (K6), finite case analysis of the modify dispatch (K7) + fresh-stamp rule at every live insertion site (queue time taken in the same operation)",
         text=("Decides the premises K1-K6 from which agreement with a reference price-time engine follows by induction (given invariant I, itself "
               "proved by the typestate analysis, and BTreeMap ordering): key price = order price through a monotone side transform, key time = clock / "
               "strictly increasing stamp at the call, loops pop the head of the opposite side under `vol > 0 && limit admits best` and leave only when a "
@@ -43,7 +43,7 @@ STATUS = {
         note=TRUST + "Assumes valid histories (clock non-decreasing, prices strictly inside (0, 2^32-1))."),
     "C05": dict(
         claimed=True,
-        technique="provenance of the key's time component at every key write of the side-specialised whole-operation views + idiom check of the stamp method (returns max(clock, counter), counter := result+1, single writer) + loader origin check (loader helpers spliced in) + C08's batch rules for over-full steps",
+        technique="provenance of the key's time component at every key write of the side-specialised whole-operation views + idiom check of the stamp method (returns max(clock, counter), counter := result+1, single writer) + loader origin check (loader helpers spliced in) + C08's batch rules for over-full steps + write-back rule for the re-keyed working copy",
         text=("Decides the necessary structural condition for tie histories: the priority-map key is injective over queued orders and ordered by "
               "queueing sequence, because every queue time is a strictly increasing stamp that feeds exactly one key, the map key contains it, and the "
               "loader restores the counter above all stored queue times. Raw clock / order id are rejected as uniqueness sources. Behaviour of the other "
@@ -82,7 +82,7 @@ STATUS = {
         note=TRUST + "serde_json rejects strict prefixes of an object document (trusted)."),
     "C08": dict(
         claimed=True,
-        technique="shape rules on the step CFG (take/replace-with-empty, single loop with enumerate index or verified position counter, dominance of clock writes over process_event, origin of the time expressions, benign emptiness guards), mutator census, reset-body rule, dispatch name-role agreement, sibling comparison Env/MarketEnv + unconditional per-asset forwarding of place / cancel / modify by Market",
+        technique="shape rules on the step CFG (take/replace-with-empty, single loop with enumerate index or verified position counter, dominance of clock writes over process_event, origin of the time expressions, benign emptiness guards), mutator census, reset-body rule, dispatch name-role agreement, sibling comparison Env/MarketEnv + unconditional per-asset forwarding of place / cancel / modify by Market + batch-intact rule (between the take and the loop the batch is only shuffled, measured and iterated; in-place shuffle + full drain accepted)",
         text=("Decides: the queue is emptied by mem::take and exactly that batch is iterated once, every item gets `start + index` then one process_event, "
               "the clock ends at `start + step_size`, the volume reset precedes the loop, nothing else mutates the book; process_event dispatches all three "
               "instruction kinds with fields bound by name; submission functions queue exactly one same-named event. Replay equivalence with a plain book "
@@ -97,21 +97,21 @@ STATUS = {
         note=TRUST + "Soundness of the effect analysis rests on: no interior mutability (checked), no unsafe (none in the workspace), std semantics of push/take."),
     "C11": dict(
         claimed=True,
-        technique="side-qualifier / quantity agreement of push origins against the frozen (bid, ask) conventions read through symbolic loop items (index / zip / enumerate loops alike); coverage of every level and asset; writer census; getter origin checks; must-flow of fill volumes into the recorded counter (shared with C03) + trade-time and reset-every-step rules",
+        technique="side-qualifier / quantity agreement of push origins against the frozen (bid, ask) conventions read through symbolic loop items (index / zip / enumerate loops alike); coverage of every level and asset; writer census; getter origin checks; must-flow of fill volumes into the recorded counter (shared with C03) + trade-time and reset-every-step rules + views rule on the snapshot feeds (OrderBook / Market level_2_data composed of the live book's own queries)",
         text=("Decides alignment and faithfulness structurally: one push per series per step, each series fed from the same-side same-quantity field at the "
               "same level index, per-asset indexes agree, traded volume read from the counter after the loop, no other writers, getters return the series "
               "their names say."),
         note=TRUST),
     "C15": dict(
         claimed=True,
-        technique="resolved-callee and argument provenance of the shuffle call, dominance over the loop, deny list of reordering calls on the batch, Cargo.lock pin + nothing is decided at submission (creation rule)",
+        technique="resolved-callee and argument provenance of the shuffle call, dominance over the loop, deny list of reordering calls on the batch, Cargo.lock pin + nothing is decided at submission (creation rule) + C08's queue rules on the shuffled batch (taken whole, once, nothing split off, filtered or put back)",
         text=("Decides the reduction to the trusted library (not the statistics): one unconditional rand SliceRandom::shuffle of the whole batch with the "
               "step's generator, nothing reorders or drops afterwards, no other randomness in step, rand 0.8.5 pinned. Uniformity of Fisher-Yates and "
               "generator quality are trusted; no frequencies are measured."),
         note=TRUST + "rand 0.8.5 shuffle is Fisher-Yates driven only by the passed generator."),
     "C09": dict(
         claimed=True,
-        technique="deny-list reachability on the resolved call graph + provenance of every generator argument (through reborrows and closure captures) + construction-site census + sibling comparison of the runner branches + Cargo.lock pins (roots include agent / environment constructors; deny list includes once-initialised and shared mutable statics)",
+        technique="deny-list reachability on the resolved call graph + provenance of every generator argument (through reborrows and closure captures) + construction-site census + sibling comparison of the runner branches + Cargo.lock pins (roots include agent / environment constructors; deny list includes once-initialised and shared mutable statics) (roots include the macro-generated AgentSet / MarketAgentSet update bodies)",
         text=("Decides by effect analysis that nothing but the seeded generator can influence a run: no deny-listed nondeterminism source is reachable "
               "from any simulation root, every draw takes the enclosing function's own generator parameter, generators are built once from the seed "
               "parameter in the runners / PyO3 constructors only, both progress branches are identical. Sound over-approximation modulo the listed "
@@ -151,7 +151,7 @@ STATUS = {
         note=TRUST + "Assumes demand, scale, order_ratio, n > 0 and decay in (0, 1]."),
     "C18": dict(
         claimed=True,
-        technique="forwarding conformance of the PyO3 wrappers on their MIR: expected-callee table keyed by the public Python names, name-role and qualifier-token agreement (incl. (bid, ask) pair getters and constructors), whole-list rule for record getters, constant tables of the conversions, tuple-layout vs documentation, signature scan, StepEnv/StepEnvNumpy sibling comparison + C07's snapshot rule set for the JSON clause",
+        technique="forwarding conformance of the PyO3 wrappers on their MIR: expected-callee table keyed by the public Python names, name-role and qualifier-token agreement (incl. (bid, ask) pair getters and constructors), whole-list rule for record getters, constant tables of the conversions, tuple-layout vs documentation, signature scan, StepEnv/StepEnvNumpy sibling comparison + C07's snapshot rule set for the JSON clause + C09's deny-list reachability rooted at the StepEnv methods (seed determinism)",
         text=("Decides that the Python classes are literal forwarders: each wrapper calls exactly the expected core function with arguments bound by name, "
               "reads the side/quantity its name says, converts bool<->Side and Status->u8 as documented, lays records out as documented, takes only core "
               "integer types (so out-of-range ints are rejected by PyO3 before the body), maps OrderError to ValueError without own effects, seeds and uses "
@@ -159,7 +159,7 @@ STATUS = {
         note=TRUST + "PyO3 0.20 extraction semantics (OverflowError on out-of-range ints) are trusted."),
     "C19": dict(
         claimed=True,
-        technique="translation validation between documentation tables (Rust doc comments, Python docstrings parsed with ast/regex) and the element/key/column origins of the builders extracted from MIR through an abstract array/dictionary model (literal prefix + per-level block of one complete level loop; key templates evaluated with constant arguments) + dictionary complete on every path + C11's reset rule for array element 0",
+        technique="translation validation between documentation tables (Rust doc comments, Python docstrings parsed with ast/regex) and the element/key/column origins of the builders extracted from MIR through an abstract array/dictionary model (literal prefix + per-level block of one complete level loop; key templates evaluated with constant arguments) + dictionary complete on every path + C11's reset rule for array element 0 + C02's views / level-walk / wrapper rules on the records the builders read (documented quantity)",
         text=("Static conformance check, exactly as the property names it: for all four array builders, both market-data dictionaries and both data-frame "
               "helpers the documented layout (index -> quantity, key -> series, column -> field) equals the layout the code builds, element by element, "
               "including lengths and the per-level loop. Array contents for concrete states are not computed."),
